@@ -17,6 +17,8 @@ LEVEL_TEXT = (
 
 
 def run(prog: Program, res: Result, tier: str) -> None:
+    from .. import memo
+    memo.report(prog, res)
     res.trusted += ["axis-provenance classification of sa/hashrules.py"]
     hashrules.check_aggregation(prog, res)
     hashrules.check_multiset_def(prog, res)
